@@ -257,7 +257,15 @@ def keep_complement(chk, f):
             dd = g.single_def(g.copy_root(subj)) if subj is not None else None
             if dd and dd[0] == "assign" and dd[3]["k"] == "unop" and dd[3]["op"] == "Not":
                 t_in, t_out = t_out, t_in
-            ok = len(pushes) == 1 and an.dominated_by_edge(g, sb, t_out, pushes[0][0]) and it.elem_path(pushes[0][1]["args"][1]) == () and \
+            def pushed_elem(o):
+                # the element itself, or the element wrapped as Axis(i) (the conversion done while collecting)
+                if it.elem_path(o) == ():
+                    return True
+                l_ = op_local(o)
+                d_ = g.single_def(g.copy_root(l_)) if l_ is not None else None
+                return bool(d_ and d_[0] == "assign" and d_[3]["k"] == "aggregate" and (d_[3].get("adt") or "").endswith("::Axis") and
+                            len(d_[3]["ops"]) == 1 and it.elem_path(d_[3]["ops"][0]) == ())
+            ok = len(pushes) == 1 and an.dominated_by_edge(g, sb, t_out, pushes[0][0]) and pushed_elem(pushes[0][1]["args"][1]) and \
                 len(it.switches()) == 1 and not it.early_exits()
         out["complement"] = tested and ok
         out["why"] = "for i in axes { if !keep.contains(&i) { v.push(i) } }: tests the element=%s, pushes exactly the axes not contained=%s" % (tested, ok)
